@@ -68,7 +68,11 @@ pub(crate) const MAX_READ_AHEAD_FACTOR: usize = 5;
 pub(crate) const MAX_WRITE_BUFFER_SIZE: usize = 2;
 
 /// Max. length for Noise protocol message payloads.
-pub const MAX_FRAME_LEN: usize = MAX_NOISE_MSG_LEN - NOISE_EXTRA_ENCRYPT_SPACE;
+///
+/// A Noise message (ciphertext and tag) is at most 65535 bytes (`snow::constants::MAXMSGLEN`) and
+/// its length must fit the `u16` frame header, so the payload of one frame is at most
+/// `65535 - 16` bytes; `snow` refuses anything larger.
+pub const MAX_FRAME_LEN: usize = MAX_NOISE_MSG_LEN - NOISE_EXTRA_ENCRYPT_SPACE - 1;
 
 /// Logging target for the file.
 const LOG_TARGET: &str = "litep2p::crypto::noise";
